@@ -2,6 +2,7 @@ package nc
 
 import (
 	"fmt"
+	"go/constant"
 	"go/token"
 	"go/types"
 
@@ -148,7 +149,7 @@ func c14DroppedError(cases []*c14RetCase, errIdx int, isQueryErr func(ssa.Value)
 
 // C14 — activation depth.
 func C14(p *Prog, r *Run) {
-	r.Explanation = "Decided on NNode.Depth and Network.MaxActivationDepthWithCap: (1) no return is reachable from `visited = true` without `visited = false` on the same node - by an explicit store or by a deferred call that was certainly registered and clears the mark on each of its paths (flag-sensitive path search over the SSA CFG, every path, including the error-propagation return); the same for the successful returns of every other function of the package that sets the mark; (2) every recursive call is guarded by `!in.visited` of the node it recurses into and dominated by the receiver's mark (termination on cyclic graphs), every iteration over the incoming links recurses unless the source is marked, and the loop is left early only after a recursion error; (3) the depth-exceeded error originates only under `cap > 0 && d > cap` (strict) and returns the cap, errors from the recursion are propagated unchanged (decided per return alternative: value and error that belong together, also when returns are merged or results live in cells); (4) under every case in which IsSensor holds, Depth returns (d, nil) (or the cap error) without recursing; the recursion passes d+1 and the same cap, results are folded with a strict `>` maximum that starts at d, over the incoming links and over all outputs starting from depth 0, and the shortcut 1 is returned only when len(allNodes) == len(inputs)+len(Outputs) (linear form). Not decided: the numeric equality with the longest path on every DAG (follows from 2-4 by induction, which the checker does not perform)."
+	r.Explanation = "Decided on NNode.Depth and Network.MaxActivationDepthWithCap: (1) no return is reachable from `visited = true` without `visited = false` on the same node - by an explicit store or by a deferred call that was certainly registered and clears the mark on each of its paths (flag-sensitive path search over the SSA CFG, every path, including the error-propagation return); the same for the successful returns of every other function of the package that sets the mark; (2) every recursive call is guarded by `!in.visited` of the node it recurses into and dominated by the receiver's mark (termination on cyclic graphs), every iteration over the incoming links recurses unless the source is marked, and the loop is left early only after a recursion error; (3) the depth-exceeded error originates only under `cap > 0 && d > cap` (strict) and returns the cap, errors from the recursion are propagated unchanged (decided per return alternative: value and error that belong together, also when returns are merged or results live in cells); (4) under every case in which IsSensor holds, Depth returns (d, nil) (or the cap error) without recursing; the recursion passes d+1 and the same cap, results are folded with a strict `>` maximum that starts at d, over the incoming links and over all outputs starting from depth 0, and the shortcut 1 is returned only when len(allNodes) == len(inputs)+len(Outputs) (linear form); (5) the algorithm for modular networks is called, and MaxActivationDepthWithCap refuses a network, only under a branch outcome that states len(controlNodes) >= 1 (any spelling; nil-ness of the list is not such a fact), and MaxActivationDepth otherwise returns both results of MaxActivationDepthWithCap with a cap <= 0. Not decided: the numeric equality with the longest path on every DAG (follows from 2-4 by induction, which the checker does not perform)."
 	depth := p.Func(PkgN, "NNode.Depth")
 	visited := p.Field(PkgN, "NNode", "visited")
 	sentinelG, _ := p.SSAPk[PkgN].Members["ErrMaximalNetDepthExceeded"].(*ssa.Global)
@@ -239,6 +240,145 @@ func C14(p *Prog, r *Run) {
 			}
 		})
 		return out
+	}
+
+	// maxOverOutputs: the obligations on a function mx that computes the depth of a plain network as the maximum of
+	// Depth(0, cap) over all outputs (MaxActivationDepthWithCap; MaxActivationDepth when the search is written out or
+	// expanded in it). capOK judges the cap handed to the depth queries; given, when not nil, are the return
+	// alternatives to examine (otherwise all of mx).
+	maxOverOutputs := func(mx *ssa.Function, pfx string, capOK func(v ssa.Value, t *Term) bool, capWhat string, given []*c14RetCase) {
+		r.Fn(FuncName(mx))
+		tmx := NewTermer(mx)
+		TX := func(v ssa.Value) *Term { return c14T(tmx, v) }
+		calls := queries(mx)
+		for _, c := range calls {
+			r.CallSites++
+			var a []*Term
+			for _, v := range c.Common().Args {
+				a = append(a, TX(v))
+			}
+			okRecv := a[0].Op == "elem" && a[0].Args[0].Op == "field" && a[0].Args[0].Name == "Outputs" && a[0].Args[0].Args[0].Op == "recv"
+			r.Check(okRecv, pfx+".outputs", p.Pos(c.Pos()), "Depth is queried on every element of Outputs", "Depth is queried on "+a[0].String()+", expected the network's outputs")
+			r.Check(a[1].String() == "0", pfx+".d0", p.Pos(c.Pos()), "outputs start at depth 0", "outputs start at depth "+a[1].String())
+			r.Check(capOK(c.Common().Args[2], a[2]), pfx+".cap", p.Pos(c.Pos()), capWhat, "cap argument is "+a[2].String())
+			var ex ssa.Value
+			for _, ref := range *c.Value().Referrers() {
+				if e, ok := ref.(*ssa.Extract); ok && e.Index == 0 {
+					ex = e
+				}
+			}
+			examined := false
+			for _, ref := range *c.Value().Referrers() {
+				if e, ok := ref.(*ssa.Extract); ok && e.Index == 1 && len(*e.Referrers()) > 0 {
+					examined = true
+				}
+			}
+			r.Check(examined, pfx+".err", p.Pos(c.Pos()), "the error of the depth query is examined", "the error of the depth query of an output is ignored: a depth-exceeded result (the cap) is taken as the depth")
+			if ex != nil {
+				op, acc, ok := foldsAsMax(ex)
+				r.Check(ok && (op == token.GTR || op == token.GEQ), pfx+".fold", p.Pos(c.Pos()), "maximum over the outputs", fmt.Sprintf("depths of the outputs are not folded as a maximum (found=%v op=%s)", ok, op))
+				if ok {
+					init := false
+					for _, e := range acc.Edges {
+						if TX(e).String() == "0" {
+							init = true
+						}
+					}
+					r.Check(init, pfx+".init", p.Pos(c.Pos()), "the maximum starts at 0", "the maximum over outputs does not start at 0")
+				}
+			} else {
+				r.Bad(pfx+".fold", p.Pos(c.Pos()), "the depth of an output is ignored")
+			}
+			// every output is queried: each iteration of the loop over Outputs makes the query, and the loop ends early only
+			// after a query reported an error (an output that is not examined can be the deepest one, or the one that exceeds the cap)
+			l := scanLoopOf(Loops(mx), c.Block())
+			if l == nil || !loopRangesOver(tmx, l, "recv.Outputs") {
+				r.Bad(pfx+".outputs.loop", p.Pos(c.Pos()), "the depth query is not inside a loop over all outputs of the network")
+				continue
+			}
+			paths, complete := EnumIterPaths(mx, l, 500)
+			if !complete {
+				r.Undecided(pfx+".outputs.paths", p.Pos(c.Pos()), "too many paths")
+				continue
+			}
+			r.PathsExplored += len(paths)
+			var skip []string
+			for _, ip := range paths {
+				if ip.End == "back" && !ip.OnPath(c) {
+					skip = ip.Describe(p)
+				}
+			}
+			early := c14EarlyLeave(p, l, paths, c)
+			r.Check(skip == nil && early == nil, pfx+".outputs.all", p.Pos(c.Pos()), "every output is queried: the loop over the outputs ends only when they are exhausted or a query reported an error",
+				"an output can be left unexamined although no query reported an error (the loop over the outputs skips an iteration or ends early): a deeper output, or the one exceeding the cap, is missed", append(skip, early...)...)
+		}
+		r.Floor("Depth calls in "+mx.Name(), len(calls), 1)
+		// every value the function returns is the shortcut 1, the running maximum, or what a failed Depth call returned
+		var mcases []*c14RetCase
+		if given != nil {
+			mcases = given
+		} else {
+			var complete bool
+			mcases, complete = c14ReturnCases(mx, 4000)
+			if !complete {
+				Bail(pfx+".returns.paths", p.Pos(mx.Pos()), "too many paths through "+mx.Name())
+			}
+		}
+		for _, rc := range mcases {
+			r.PathsExplored += len(rc.Paths)
+			if len(rc.Vals) != 2 {
+				continue
+			}
+			v, e := rc.Vals[0], rc.Vals[1]
+			okV := false
+			if k, isC := v.(*ssa.Const); isC && k.Value != nil {
+				switch {
+				case k.Value.ExactString() == "1":
+					okV = true
+				case !rc.ErrNil(1):
+					okV = true // a constant returned together with an error (unsupported network)
+				case k.Value.ExactString() == "0":
+					okV = true // the initial value of the running maximum
+				}
+			} else if depthResult(v, 0) != nil {
+				okV = true
+			}
+			if !okV {
+				r.Bad(pfx+".result-origin", p.Pos(rc.Ret.Pos()), mx.Name()+" can return "+TX(v).String()+", which is neither the shortcut, the running maximum over the outputs nor the result of a Depth query of this call (a stored value ignores the cap and the current topology)")
+			}
+			// an error reported by a depth query comes back with the value of that query (the cap)
+			if c := depthResult(e, 1); c != nil && !rc.ErrNil(1) && depthResult(v, 0) != c {
+				r.Bad(pfx+".propagate", p.Pos(rc.Ret.Pos()), "the error of a depth query is returned with "+TX(v).String()+" instead of the value that query reported (the cap)")
+			}
+		}
+		if rc, x := c14DroppedError(mcases, 1, func(v ssa.Value) bool { return depthResult(v, 1) != nil }); rc != nil {
+			r.Bad(pfx+".err.kept", p.Pos(rc.Ret.Pos()), "after a depth query reported the error "+TX(x).String()+" "+mx.Name()+" can return "+TX(rc.Vals[1]).String()+" instead: the depth-exceeded error is lost")
+		} else {
+			r.OK(pfx+".err.kept", p.Pos(mx.Pos()), "an error reported by a depth query is returned")
+		}
+		// shortcut
+		want := linAtom("len(recv.allNodes)").Add(linAtom("len(recv.inputs)"), -1).Add(linAtom("len(recv.Outputs)"), -1)
+		for _, rc := range mcases {
+			if len(rc.Vals) != 2 || TX(rc.Vals[0]).String() != "1" || !rc.ErrNil(1) {
+				continue
+			}
+			okG := true
+			for _, pa := range rc.Paths {
+				seen := false
+				pa.EachCond(func(c ssa.Value, o bool, _ int) {
+					b, isBin := c.(*ssa.BinOp)
+					if !isBin || !((b.Op == token.EQL && o) || (b.Op == token.NEQ && !o)) {
+						return
+					}
+					diff := c14Lin(TX(b.X)).Add(c14Lin(TX(b.Y)), -1)
+					if diff.Equal(want) || diff.Add(want, 1).IsZero() {
+						seen = true
+					}
+				})
+				okG = okG && seen
+			}
+			r.Check(okG, pfx+".shortcut", p.Pos(rc.Ret.Pos()), "depth 1 is returned only when all nodes are inputs or outputs", "the shortcut `return 1` is not guarded by len(allNodes) == len(inputs)+len(Outputs)")
+		}
 	}
 
 	r.Rule("C14.1", "mark/unmark pairing: no Return is reachable from a store visited=true without passing a store visited=false on the same node (explicit, or by a registered deferred call); in the other functions of the package that set the mark, no successful return is", func() {
@@ -583,132 +723,161 @@ func C14(p *Prog, r *Run) {
 			}
 		}
 
+		maxOverOutputs(p.Func(PkgN, "Network.MaxActivationDepthWithCap"), "MaxDepth", func(_ ssa.Value, t *Term) bool { return isParamIdx(t, 1) }, "the cap parameter is passed on", nil)
+	})
+
+	r.Rule("C14.5", "dispatch: a network is handed to the algorithm for modular networks (all-pairs shortest paths), or refused as modular, only when its control list has at least one element (a fact about len(controlNodes), not about nil-ness or another field); otherwise MaxActivationDepth returns what MaxActivationDepthWithCap reports without a cap. If this fails, a network without control nodes whose control list is empty but not nil (the phenotype of a genome whose control genes are all disabled) gets the shortest-path estimate, which under-reports the longest path, or the `unsupported` error instead of its depth", func() {
+		ctrl := p.Field(PkgN, "Network", "controlNodes")
+		modular := p.Func(PkgN, "Network.maxActivationDepthModular")
 		mx := p.Func(PkgN, "Network.MaxActivationDepthWithCap")
-		r.Fn(FuncName(mx))
-		tmx := NewTermer(mx)
-		TX := func(v ssa.Value) *Term { return c14T(tmx, v) }
-		calls := queries(mx)
-		for _, c := range calls {
-			r.CallSites++
-			var a []*Term
-			for _, v := range c.Common().Args {
-				a = append(a, TX(v))
+		mad := p.Func(PkgN, "Network.MaxActivationDepth")
+		// (a) every caller of the modular algorithm in the package
+		nSites := 0
+		for _, fn := range p.SrcFuncs() {
+			if fn == modular || fn.Pkg == nil || fn.Pkg.Pkg.Path() != PkgN {
+				continue
 			}
-			okRecv := a[0].Op == "elem" && a[0].Args[0].Op == "field" && a[0].Args[0].Name == "Outputs" && a[0].Args[0].Args[0].Op == "recv"
-			r.Check(okRecv, "MaxDepth.outputs", p.Pos(c.Pos()), "Depth is queried on every element of Outputs", "Depth is queried on "+a[0].String()+", expected the network's outputs")
-			r.Check(a[1].String() == "0", "MaxDepth.d0", p.Pos(c.Pos()), "outputs start at depth 0", "outputs start at depth "+a[1].String())
-			r.Check(isParamIdx(a[2], 1), "MaxDepth.cap", p.Pos(c.Pos()), "the cap parameter is passed on", "cap argument is "+a[2].String())
-			var ex ssa.Value
-			for _, ref := range *c.Value().Referrers() {
-				if e, ok := ref.(*ssa.Extract); ok && e.Index == 0 {
-					ex = e
+			cs := CallsTo(fn, modular)
+			if len(cs) == 0 {
+				continue
+			}
+			r.Fn(FuncName(fn))
+			tm := NewTermer(fn)
+			stable := len(FieldStores(fn, ctrl)) == 0
+			for _, c := range cs {
+				r.CallSites++
+				nSites++
+				if c.Common().IsInvoke() || len(c.Common().Args) == 0 {
+					r.Bad(fn.Name()+".modular.guard", p.Pos(c.Pos()), "the modular depth algorithm is reached through a call that cannot be resolved")
+					continue
 				}
+				net := c14T(tm, c.Common().Args[0]).String()
+				_, isCall := c.(*ssa.Call)
+				ok := isCall && stable && c14GuardedByElems(tm, c.Block(), net, ctrl)
+				r.Check(ok, fn.Name()+".modular.guard", p.Pos(c.Pos()), "the modular algorithm is used only when len("+net+".controlNodes) >= 1",
+					"the all-pairs shortest-path algorithm for modular networks can be reached without the test that "+net+".controlNodes has at least one element: a plain network with an empty, non-nil control list is measured by shortest paths and its depth under-reported")
 			}
-			examined := false
-			for _, ref := range *c.Value().Referrers() {
-				if e, ok := ref.(*ssa.Extract); ok && e.Index == 1 && len(*e.Referrers()) > 0 {
-					examined = true
+		}
+		r.Floor("calls of maxActivationDepthModular", nSites, 2)
+		// (b) MaxActivationDepthWithCap refuses a network (an error that no depth query reported) only when it has control nodes
+		{
+			tmx := NewTermer(mx)
+			base := tmx.Of(mx.Params[0]).String()
+			stable := len(FieldStores(mx, ctrl)) == 0
+			mcases, complete := c14ReturnCases(mx, 4000)
+			if !complete {
+				Bail("MaxDepth.unsupported.paths", p.Pos(mx.Pos()), "too many paths through MaxActivationDepthWithCap")
+			}
+			n := 0
+			for _, rc := range mcases {
+				r.PathsExplored += len(rc.Paths)
+				if len(rc.Vals) != 2 || rc.ErrNil(1) || depthResult(rc.Vals[1], 1) != nil {
+					continue
 				}
+				n++
+				var wit []string
+				for _, pa := range rc.Paths {
+					if !stable || !pa.HasElems(tmx, base, ctrl) {
+						wit = pa.Describe(p)
+						break
+					}
+				}
+				r.Check(wit == nil, "MaxDepth.unsupported.guard", p.Pos(rc.Ret.Pos()), "the network is refused only when len(controlNodes) >= 1",
+					"MaxActivationDepthWithCap can return the error "+c14T(tmx, rc.Vals[1]).String()+", which no depth query reported, without having seen that controlNodes has at least one element: a plain network with an empty, non-nil control list gets an error instead of its depth", wit...)
 			}
-			r.Check(examined, "MaxDepth.err", p.Pos(c.Pos()), "the error of the depth query is examined", "the error of the depth query of an output is ignored: a depth-exceeded result (the cap) is taken as the depth")
-			if ex != nil {
-				op, acc, ok := foldsAsMax(ex)
-				r.Check(ok && (op == token.GTR || op == token.GEQ), "MaxDepth.fold", p.Pos(c.Pos()), "maximum over the outputs", fmt.Sprintf("depths of the outputs are not folded as a maximum (found=%v op=%s)", ok, op))
+			if n == 0 {
+				r.OK("MaxDepth.unsupported.guard", p.Pos(mx.Pos()), "MaxActivationDepthWithCap returns no error of its own")
+			}
+		}
+		// (c) MaxActivationDepth: a network not seen to have control nodes gets the uncapped answer of MaxActivationDepthWithCap
+		{
+			r.Fn(FuncName(mad))
+			tm := NewTermer(mad)
+			base := tm.Of(mad.Params[0]).String()
+			stable := len(FieldStores(mad, ctrl)) == 0
+			cases, complete := c14ReturnCases(mad, 4000)
+			if !complete {
+				Bail("MaxActivationDepth.plain.paths", p.Pos(mad.Pos()), "too many paths through MaxActivationDepth")
+			}
+			resultOf := func(v ssa.Value, idx int) *ssa.Call {
+				x, ok := v.(*ssa.Extract)
+				if !ok || x.Index != idx {
+					return nil
+				}
+				c, ok := x.Tuple.(*ssa.Call)
+				if !ok || c.Call.IsInvoke() || c.Call.StaticCallee() != mx || len(c.Call.Args) != 2 || !c14IsParam(mad, c.Call.Args[0], 0) {
+					return nil
+				}
+				k, isC := c14Canon(c.Call.Args[1]).(*ssa.Const)
+				if !isC || k.Value == nil || k.Value.Kind() != constant.Int || constant.Sign(k.Value) > 0 {
+					return nil // a positive cap truncates the answer
+				}
+				return c
+			}
+			nPlain := 0
+			searches := len(queries(mad)) > 0
+			var rest []*c14RetCase
+			for _, rc := range cases {
+				r.PathsExplored += len(rc.Paths)
+				var plain []int
+				for j, pa := range rc.Paths {
+					if !stable || !pa.HasElems(tm, base, ctrl) {
+						plain = append(plain, j)
+					}
+				}
+				if len(plain) == 0 {
+					continue
+				}
+				nPlain++
+				ok := len(rc.Vals) == 2
 				if ok {
-					init := false
-					for _, e := range acc.Edges {
-						if TX(e).String() == "0" {
-							init = true
+					c := resultOf(rc.Vals[0], 0)
+					ok = c != nil
+					if ok && resultOf(rc.Vals[1], 1) != c {
+						// `return d, nil` after the error of that call was seen to be nil
+						var errV ssa.Value
+						for _, ref := range *c.Referrers() {
+							if e, isE := ref.(*ssa.Extract); isE && e.Index == 1 {
+								errV = e
+							}
+						}
+						k, isC := rc.Vals[1].(*ssa.Const)
+						ok = isC && k.Value == nil && errV != nil
+						for _, j := range plain {
+							ok = ok && rc.Paths[j].NilAt(errV, rc.Pos[j][1], true)
 						}
 					}
-					r.Check(init, "MaxDepth.init", p.Pos(c.Pos()), "the maximum starts at 0", "the maximum over outputs does not start at 0")
 				}
-			} else {
-				r.Bad("MaxDepth.fold", p.Pos(c.Pos()), "the depth of an output is ignored")
-			}
-			// every output is queried: each iteration of the loop over Outputs makes the query, and the loop ends early only
-			// after a query reported an error (an output that is not examined can be the deepest one, or the one that exceeds the cap)
-			l := scanLoopOf(Loops(mx), c.Block())
-			if l == nil || !loopRangesOver(tmx, l, "recv.Outputs") {
-				r.Bad("MaxDepth.outputs.loop", p.Pos(c.Pos()), "the depth query is not inside a loop over all outputs of the network")
-				continue
-			}
-			paths, complete := EnumIterPaths(mx, l, 500)
-			if !complete {
-				r.Undecided("MaxDepth.outputs.paths", p.Pos(c.Pos()), "too many paths")
-				continue
-			}
-			r.PathsExplored += len(paths)
-			var skip []string
-			for _, ip := range paths {
-				if ip.End == "back" && !ip.OnPath(c) {
-					skip = ip.Describe(p)
+				what := "?"
+				if len(rc.Vals) == 2 {
+					what = "(" + c14T(tm, rc.Vals[0]).String() + ", " + c14T(tm, rc.Vals[1]).String() + ")"
 				}
-			}
-			early := c14EarlyLeave(p, l, paths, c)
-			r.Check(skip == nil && early == nil, "MaxDepth.outputs.all", p.Pos(c.Pos()), "every output is queried: the loop over the outputs ends only when they are exhausted or a query reported an error",
-				"an output can be left unexamined although no query reported an error (the loop over the outputs skips an iteration or ends early): a deeper output, or the one exceeding the cap, is missed", append(skip, early...)...)
-		}
-		r.Floor("Depth calls in MaxActivationDepthWithCap", len(calls), 1)
-		// every value the function returns is the shortcut 1, the running maximum, or what a failed Depth call returned
-		mcases, complete := c14ReturnCases(mx, 4000)
-		if !complete {
-			Bail("MaxDepth.returns.paths", p.Pos(mx.Pos()), "too many paths through MaxActivationDepthWithCap")
-		}
-		for _, rc := range mcases {
-			r.PathsExplored += len(rc.Paths)
-			if len(rc.Vals) != 2 {
-				continue
-			}
-			v, e := rc.Vals[0], rc.Vals[1]
-			okV := false
-			if k, isC := v.(*ssa.Const); isC && k.Value != nil {
-				switch {
-				case k.Value.ExactString() == "1":
-					okV = true
-				case !rc.ErrNil(1):
-					okV = true // a constant returned together with an error (unsupported network)
-				case k.Value.ExactString() == "0":
-					okV = true // the initial value of the running maximum
-				}
-			} else if depthResult(v, 0) != nil {
-				okV = true
-			}
-			if !okV {
-				r.Bad("MaxDepth.result-origin", p.Pos(rc.Ret.Pos()), "MaxActivationDepthWithCap can return "+TX(v).String()+", which is neither the shortcut, the running maximum over the outputs nor the result of a Depth query of this call (a stored value ignores the cap and the current topology)")
-			}
-			// an error reported by a depth query comes back with the value of that query (the cap)
-			if c := depthResult(e, 1); c != nil && !rc.ErrNil(1) && depthResult(v, 0) != c {
-				r.Bad("MaxDepth.propagate", p.Pos(rc.Ret.Pos()), "the error of a depth query is returned with "+TX(v).String()+" instead of the value that query reported (the cap)")
-			}
-		}
-		if rc, x := c14DroppedError(mcases, 1, func(v ssa.Value) bool { return depthResult(v, 1) != nil }); rc != nil {
-			r.Bad("MaxDepth.err.kept", p.Pos(rc.Ret.Pos()), "after a depth query reported the error "+TX(x).String()+" MaxActivationDepthWithCap can return "+TX(rc.Vals[1]).String()+" instead: the depth-exceeded error is lost")
-		} else {
-			r.OK("MaxDepth.err.kept", p.Pos(mx.Pos()), "an error reported by a depth query is returned")
-		}
-		// shortcut
-		want := linAtom("len(recv.allNodes)").Add(linAtom("len(recv.inputs)"), -1).Add(linAtom("len(recv.Outputs)"), -1)
-		for _, rc := range mcases {
-			if len(rc.Vals) != 2 || TX(rc.Vals[0]).String() != "1" || !rc.ErrNil(1) {
-				continue
-			}
-			okG := true
-			for _, pa := range rc.Paths {
-				seen := false
-				pa.EachCond(func(c ssa.Value, o bool, _ int) {
-					b, isBin := c.(*ssa.BinOp)
-					if !isBin || !((b.Op == token.EQL && o) || (b.Op == token.NEQ && !o)) {
-						return
+				if !ok && searches && len(rc.Vals) == 2 && (rc.ErrNil(1) || depthResult(rc.Vals[1], 1) != nil) {
+					// the longest-path search is written out (or a shared worker was expanded) here: this alternative is
+					// examined below like the returns of MaxActivationDepthWithCap
+					sub := &c14RetCase{Ret: rc.Ret, Vals: rc.Vals}
+					for _, j := range plain {
+						sub.Paths = append(sub.Paths, rc.Paths[j])
+						sub.Pos = append(sub.Pos, rc.Pos[j])
 					}
-					diff := c14Lin(TX(b.X)).Add(c14Lin(TX(b.Y)), -1)
-					if diff.Equal(want) || diff.Add(want, 1).IsZero() {
-						seen = true
-					}
-				})
-				okG = okG && seen
+					rest = append(rest, sub)
+					continue
+				}
+				var wit []string
+				if !ok {
+					wit = rc.Paths[plain[0]].Describe(p)
+				}
+				r.Check(ok, "MaxActivationDepth.plain", p.Pos(rc.Ret.Pos()), "without the fact len(controlNodes) >= 1 the result is that of MaxActivationDepthWithCap without a cap",
+					"MaxActivationDepth can return "+what+" for a network that was not seen to have at least one control node; expected both results of one call of MaxActivationDepthWithCap with a cap <= 0 (the longest-path search)", wit...)
 			}
-			r.Check(okG, "MaxDepth.shortcut", p.Pos(rc.Ret.Pos()), "depth 1 is returned only when all nodes are inputs or outputs", "the shortcut `return 1` is not guarded by len(allNodes) == len(inputs)+len(Outputs)")
+			if len(rest) > 0 {
+				r.OK("MaxActivationDepth.plain", p.Pos(mad.Pos()), "without the fact len(controlNodes) >= 1 MaxActivationDepth performs the search over the outputs itself, without a cap (examined as MaxActivationDepth.search.*)")
+				maxOverOutputs(mad, "MaxActivationDepth.search", func(v ssa.Value, _ *Term) bool {
+					k, isC := c14Canon(v).(*ssa.Const)
+					return isC && k.Value != nil && k.Value.Kind() == constant.Int && constant.Sign(k.Value) <= 0
+				}, "the depth queries run without a cap", rest)
+			}
+			r.Floor("returns of MaxActivationDepth for plain networks", nPlain, 1)
 		}
 	})
 }
